@@ -619,10 +619,10 @@ int process_patch(const Options& options)
 
         // The new name of a rename or copy may be taken by something which is no file either.
         // NOTE: with -o what is written to is whatever we were told to write to.
-        // NOTE: a symbolic link is only what is patched if the patch says that it is one.
-        const bool is_symlink_patch = filesystem::is_symlink(patch.old_file_mode) || filesystem::is_symlink(patch.new_file_mode);
+        // NOTE: a symbolic link is never read or written through, not even for a patch which is about a link:
+        //       the only such patch which is implemented is creating one, where nothing is to be in the way.
         auto is_not_a_regular_file = [&](const std::string& path) {
-            if (!is_symlink_patch && filesystem::is_symlink(path))
+            if (filesystem::is_symlink(path))
                 return true;
             return filesystem::exists(path) && !filesystem::is_regular_file(path);
         };
